@@ -133,7 +133,11 @@ func execHandler(raw json.RawMessage) map[string]interface{} {
 	res := map[string]interface{}{}
 	var paths []string
 	if len(c.Files) > 0 {
-		dir, err := os.MkdirTemp("", "vrun-mod-")
+		// under the worker's scratch directory (removed by the driver even when this process is killed)
+		dir, err := os.MkdirTemp(".", "vrun-mod-")
+		if err == nil {
+			dir, err = filepath.Abs(dir)
+		}
 		if err != nil {
 			return map[string]interface{}{"harness_panic": err.Error()}
 		}
